@@ -160,13 +160,15 @@ class TranscriptAnnotationModel():
 
     def get_cds_end_index(self, seq:Seq, start:int) -> int:
         """ Returns the CDS stop index of the transcript. """
-        if self.three_utr:
-            if self.transcript.strand == 1:
-                end = self.get_transcript_index(self.three_utr[0].location.start)
-            else:
-                end = self.get_transcript_index(self.three_utr[-1].location.end - 1)
-            return end - (end - start) % 3
-        return len(seq) - (len(seq) - start) % 3
+        # The CDS ends where the last CDS record ends. The 3'UTR records cannot
+        # be used: GENCODE starts them at the stop codon, Ensembl after it, and
+        # there is none when the transcript ends with the stop codon.
+        if self.transcript.strand == 1:
+            end = self.get_transcript_index(self.cds[-1].location.end - 1) + 1
+        else:
+            end = self.get_transcript_index(self.cds[0].location.start) + 1
+        end = min(end, len(seq))
+        return end - (end - start) % 3
 
     def get_transcript_sequence(self, chrom:dna.DNASeqRecord,
             cache:bool=False) -> dna.DNASeqRecordWithCoordinates:
